@@ -38,6 +38,8 @@ def main(tier: str) -> int:
     for i_, c_ in enumerate(vcases):
         c_.verdict = vv[i_]
         cases.append(c_)
+    for integ in ("generic", "rdflib"):
+        cases.extend(campaign.empty_sequence_cases(integ))       # an empty input must still give a valid (options-only) stream
     # every stream the repository's own tests make pyjelly write (recorded from outside, validity judged by TLC)
     more, info = campaign.repo_test_traffic(tier, max_rows=(60_000 if tier == "quick" else 600_000))
     cases.extend(more)
